@@ -119,6 +119,16 @@ pub fn vectors(max_len: usize) -> Vec<Value> {
         let fast32 = DefaultContiguousCategoricalEntropyModel::from_floating_point_probabilities_fast(&t32, None).unwrap();
         let t32_as_f64: Vec<f64> = t32.iter().map(|&x| x as f64).collect();
         both_coders!(json!({"kind": "categorical", "probs": t32_as_f64, "lazy": false, "perfect": false, "f32": true}), msgs, fast32, |&s| s as usize);
+        // float32 tables through the other two flavours and with the arguments left to their defaults as well (the
+        // binding dispatches on the dtype in each of them separately)
+        let perfect32 = DefaultContiguousCategoricalEntropyModel::from_floating_point_probabilities_perfect(&t32).unwrap();
+        let lazy32 = DefaultLazyContiguousCategoricalEntropyModel::<f32, _>::from_floating_point_probabilities_fast(t32.clone(), None).unwrap();
+        let short32: Vec<Vec<i32>> = msgs.iter().filter(|m| m.len() <= 3).cloned().collect();
+        both_coders!(json!({"kind": "categorical", "probs": t32_as_f64, "lazy": false, "perfect": true, "f32": true}), short32, perfect32, |&s| s as usize);
+        both_coders!(json!({"kind": "categorical", "probs": t32_as_f64, "lazy": true, "perfect": false, "f32": true}), short32, lazy32, |&s| s as usize);
+        both_coders!(json!({"kind": "categorical", "probs": t32_as_f64, "lazy": false, "perfect": true, "f32": true, "omit": ["lazy"]}), short32, perfect32, |&s| s as usize);
+        both_coders!(json!({"kind": "categorical", "probs": t32_as_f64, "lazy": true, "perfect": false, "f32": true, "omit": ["perfect"]}), short32, lazy32, |&s| s as usize);
+        both_coders!(json!({"kind": "categorical", "probs": t32_as_f64, "lazy": false, "perfect": true, "f32": true, "omit": ["lazy", "perfect"]}), short32, perfect32, |&s| s as usize);
     }
     assert!(fast_and_perfect_differ, "HARNESS: the default-argument vectors are vacuous unless the fast and the perfect quantisation differ on some table");
     for (lo, hi, mean, std) in [(-5i32, 5i32, 0.7f64, 2.3f64), (-100, 100, 35.2, 10.1), (0, 1, 0.5, 1e-3)] {
